@@ -108,6 +108,25 @@ def check_arc(case):
                  b - o for b, o in zip((svg.Path(svg.Move(None, P(*f(0.0))), mk()) * svg.Matrix.translate(7 * U, -2 * U)).bbox(), (7 * U, -2 * U, 7 * U, -2 * U))))]
     if not full:
         forms.append(("reversed arc bbox", lambda: svg.Arc(P(*f(1.0)), P(*f(0.0)), P(*cf), P(cf[0] + uf[0], cf[1] + uf[1]), P(cf[0] + vf[0], cf[1] + vf[1]), -signed).bbox()))
+
+    def asked_then_mirrored():
+        # the box of an object that was asked for its box BEFORE it was mapped in place (here: mirrored twice, back onto itself)
+        a = mk()
+        a.bbox()
+        a *= svg.Matrix.scale(-1, 1)
+        b1 = a.bbox()
+        a *= svg.Matrix.scale(-1, 1)
+        b2 = a.bbox()
+        if any(abs(x - y) > 1e-9 * max(U, abs(x)) for x, y in zip(b1, (-b2[2], b2[1], -b2[0], b2[3]))):
+            raise AssertionError("box after the first mirror %r is not the mirror image of the box after the second %r" % (b1, b2))
+        return b2
+
+    def asked_then_reversed():
+        a = mk()
+        a.bbox()
+        a.reverse()
+        return a.bbox()
+    forms += [("arc.bbox(); arc *= mirror; arc *= mirror; arc.bbox()", asked_then_mirrored), ("arc.bbox(); arc.reverse(); arc.bbox()", asked_then_reversed)]
     for name, fn in forms:
         try:
             bb = fn()
